@@ -30,7 +30,7 @@ def run(ctx):
         ctx.coverage.setdefault("design_refutations", []).append(
             {"hash_rule": rule, "violated": r.violated, "states": r.distinct, "depth": r.depth})
     q = ctx.quick
-    sims = [("Sim_IndexScript.cfg", 10 if q else 60, 5 if q else 8), ("Sim_IndexEdit.cfg", 2 if q else 60, 6 if q else 12),
+    sims = [("Sim_IndexScript13b.cfg", 3 if q else 16, 6), ("Sim_IndexScript.cfg", 8 if q else 60, 5 if q else 8), ("Sim_IndexEdit.cfg", 2 if q else 60, 6 if q else 12),
             ("Sim_IndexFresh.cfg", 2 if q else 30, 6 if q else 10), ("Sim_IndexAll.cfg", 2 if q else 60, 6 if q else 12)]
     res = ic.tour(ctx, sims, {"crash": True, "torn": not q, "double": 0 if q else 2}, cats, "C13")
     pts = sum(x.get("crash_points", 0) for x in res)
